@@ -24,6 +24,7 @@ import (
 	"math"
 	"strings"
 	"testing"
+	"time"
 
 	"codeberg.org/TauCeti/mangle-go/ast"
 	"codeberg.org/TauCeti/mangle-go/functional"
@@ -129,6 +130,9 @@ type Case struct {
 	Atom   *Lit    `json:"atom,omitempty"`
 	Type   *BT     `json:"type,omitempty"`
 	Clause *Clause `json:"clause,omitempty"`
+	// TZOffsetMin != 0: the library's process-wide default timezone is set to a fixed zone with that offset (minutes
+	// east of UTC) while the case runs, and reset to UTC afterwards. Printing then parsing must not depend on it.
+	TZOffsetMin int `json:"tzOffsetMin,omitempty"`
 }
 
 func (c Case) hash() uint64 {
@@ -548,6 +552,11 @@ func roundTrip(c Case, ft features) (printed string, err error) {
 
 func check(run *stats.Run, f stats.Failer, c Case) verdict {
 	ft := features{}
+	if c.TZOffsetMin != 0 {
+		ast.SetDefaultTimezone(time.FixedZone("case", c.TZOffsetMin*60))
+		defer ast.SetDefaultTimezone(time.UTC)
+		ft["default-timezone-set"] = true
+	}
 	printed, err := roundTrip(c, ft)
 	if err != nil {
 		run.Failf(f, "print→parse does not return the same %s: printed %q; %v", c.Kind, clip(printed), err)
@@ -1238,7 +1247,11 @@ func genCase(t *rapid.T) Case {
 		return Case{Kind: kType, Type: &ty}
 	default:
 		c := genClause(t)
-		return Case{Kind: kClause, Clause: &c}
+		cs := Case{Kind: kClause, Clause: &c}
+		if rapid.IntRange(0, 3).Draw(t, "tz") == 0 {
+			cs.TZOffsetMin = rapid.SampledFrom([]int{120, -300, 330, -720, 840, 1}).Draw(t, "tzOffset")
+		}
+		return cs
 	}
 }
 
